@@ -1,6 +1,7 @@
 import Wal.Model.Wire
 import Wal.Model.Reader
 import Wal.Model.Wawk
+import Wal.Model.WawkParse
 /-!
 # `walmodel`: line-protocol driver around the executable model
 
@@ -108,6 +109,29 @@ def step (st : St) (toks : List String) : St × String :=
       (match walStrCode e with
         | some s => (st, "ok " ++ hexOfString s)
         | Option.none => (st, "unsup"))
+    | _ => (st, "bad-request")
+  | "wawkparse" :: rest =>
+    -- a list of token lists; the reply lists the transpiled forms (all must parse, as in one WAWK program)
+    match parseSx rest with
+    | some (.list _ tokLists, []) =>
+      let tok? : Sx → Option Wawk.Tok := fun t => match t with
+        | .list _ [.str s] =>
+          (match s with
+            | "||" => some (.op .or) | "&&" => some (.op .and) | "==" => some (.op .eq) | "!=" => some (.op .neq)
+            | ">" => some (.op .gt) | "<" => some (.op .lt) | ">=" => some (.op .ge) | "<=" => some (.op .le)
+            | "+" => some (.op .add) | "-" => some (.op .sub) | "*" => some (.op .mul) | "/" => some (.op .div)
+            | "!" => some .bang | "(" => some .lp | ")" => some .rp
+            | _ => Option.none)
+        | a => some (.atom a)
+      let one : Sx → Option (Option Sx) := fun tl => match tl with
+        | .list _ toks => (toks.mapM tok?).map (fun ts => (Wawk.parseExpr ts).map (·.toSx))
+        | _ => Option.none
+      (match tokLists.mapM one with
+        | some rs =>
+          (match rs.mapM id with
+            | some forms => (st, "ok " ++ showSx st.arr? (.list false forms))
+            | Option.none => (st, "perr"))
+        | Option.none => (st, "bad-request"))
     | _ => (st, "bad-request")
   | "wawkemit" :: rest =>
     match parseSx rest with
